@@ -153,6 +153,10 @@ fn cb_holder_settle(ctx: *const (), me: usize) {
     let sim: &Sim = unsafe { &*(ctx as *const Sim) };
     sim.holder_settle(me);
 }
+fn cb_preempt(ctx: *const (), me: usize) {
+    let sim: &Sim = unsafe { &*(ctx as *const Sim) };
+    crate::tok::forced_yield(sim, me);
+}
 fn cb_sync_point(ctx: *const (), me: usize) {
     let sim: &Sim = unsafe { &*(ctx as *const Sim) };
     crate::tok::sync_point(sim, me);
@@ -163,11 +167,23 @@ pub fn activate(sim: *const Sim, me: usize) {
         let t = table();
         mchook::install(
             t.ranges.clone(),
-            mchook::Callbacks { rejoin_if_revoked: cb_rejoin, any_revoked: cb_any_revoked, holder_settle: cb_holder_settle, sync_point: cb_sync_point },
+            mchook::Callbacks { rejoin_if_revoked: cb_rejoin, any_revoked: cb_any_revoked, holder_settle: cb_holder_settle, sync_point: cb_sync_point, preempt: cb_preempt },
         );
     }
     mchook::activate(sim as *const (), me);
 }
 pub fn deactivate() {
     mchook::deactivate();
+}
+pub fn pause() {
+    mchook::pause();
+}
+pub fn resume() {
+    mchook::resume();
+}
+pub fn with_hook_disabled<R>(f: impl FnOnce() -> R) -> R {
+    mchook::with_hook_disabled(f)
+}
+pub fn set_preempts(v: Vec<u64>) {
+    mchook::set_preempts(v);
 }
